@@ -54,7 +54,7 @@ func (vc *FuncVC) genOnce() {
 	fn := vc.fn
 	spec := vc.spec
 	vc.safe = vc.sweep || (spec != nil && spec.Safe)
-	vc.nowrap = spec != nil && spec.NoWrap
+	vc.nowrap = spec != nil && spec.NoWrap && !vc.forceWrap
 	f := vc.newFrame(nil, fn, "")
 	vc.topFrame = f
 	entry := &State{m: map[string]string{}}
@@ -417,6 +417,32 @@ func (vc *FuncVC) genLemma(l *Lemma) {
 
 func (o *Obligation) SMT(withModel bool) string {
 	vc := o.vc
+	var body strings.Builder
+	for _, n := range vc.specOrder {
+		if info := vc.specInfo[n]; info != nil && info.def != "" {
+			body.WriteString(info.def + "\n")
+		}
+	}
+	for _, ax := range vc.axioms {
+		body.WriteString(ax + "\n")
+	}
+	for _, l := range vc.script.lines[:o.Upto] {
+		body.WriteString(l + "\n")
+	}
+	for _, x := range o.Extra {
+		body.WriteString("(assert " + x + ")\n")
+	}
+	body.WriteString("(assert (not " + o.Goal + "))\n(check-sat)\n")
+	if withModel {
+		body.WriteString("(get-model)\n")
+	}
+	bs := body.String()
+	usesStr := false
+	for _, w := range []string{"(slen ", "(sbyte ", "(scat ", "(ssub ", "(strlt ", "str_of_rune"} {
+		if strings.Contains(bs, w) {
+			usesStr = true
+		}
+	}
 	var sb strings.Builder
 	sb.WriteString("; obligation " + o.Name + "\n")
 	if o.Text != "" {
@@ -424,36 +450,22 @@ func (o *Obligation) SMT(withModel bool) string {
 	}
 	sb.WriteString("(set-logic ALL)\n")
 	sb.WriteString(preamble)
-	if vc.usedSpec["!str_of_rune"] {
-		sb.WriteString("(declare-fun str_of_rune (Int) Str)\n(assert (forall ((r Int)) (! (and (<= 1 (slen (str_of_rune r))) (<= (slen (str_of_rune r)) 4)) :pattern ((str_of_rune r)))))\n(assert (forall ((r Int)) (! (=> (and (<= 0 r) (< r 128)) (and (= (slen (str_of_rune r)) 1) (= (sbyte (str_of_rune r) 0) r))) :pattern ((str_of_rune r)))))\n")
+	if usesStr {
+		sb.WriteString(strAxioms)
+		if strings.Contains(bs, "str_of_rune") {
+			sb.WriteString("(declare-fun str_of_rune (Int) Str)\n(assert (forall ((r Int)) (! (and (<= 1 (slen (str_of_rune r))) (<= (slen (str_of_rune r)) 4)) :pattern ((str_of_rune r)))))\n(assert (forall ((r Int)) (! (=> (and (<= 0 r) (< r 128)) (and (= (slen (str_of_rune r)) 1) (= (sbyte (str_of_rune r) 0) r))) :pattern ((str_of_rune r)))))\n")
+		}
 	}
 	for _, d := range vc.eng.sorts.decls {
 		sb.WriteString(d + "\n")
 	}
-	for _, d := range vc.eng.strLitDecls() {
+	for _, d := range vc.eng.strLitDecls(usesStr) {
 		sb.WriteString(d + "\n")
 	}
 	for _, d := range vc.declInitials() {
 		sb.WriteString(d + "\n")
 	}
-	for _, n := range vc.specOrder {
-		if info := vc.specInfo[n]; info != nil && info.def != "" {
-			sb.WriteString(info.def + "\n")
-		}
-	}
-	for _, ax := range vc.axioms {
-		sb.WriteString(ax + "\n")
-	}
-	for _, l := range vc.script.lines[:o.Upto] {
-		sb.WriteString(l + "\n")
-	}
-	for _, x := range o.Extra {
-		sb.WriteString("(assert " + x + ")\n")
-	}
-	sb.WriteString("(assert (not " + o.Goal + "))\n(check-sat)\n")
-	if withModel {
-		sb.WriteString("(get-model)\n")
-	}
+	sb.WriteString(bs)
 	return sb.String()
 }
 
